@@ -180,4 +180,30 @@ pub fn stages(ctx: &Ctx, strict: bool) {
     };
     ctx.prop_stage("corpus-colr-havoc", Isolation::Procs, ctx.n(20_000, 200_000), strat, |c, s| test_bytes(&ix, c, s, strict));
     let _ = havoc_strategy; // (whole-font havoc on COLR fonts is covered by C02)
+    // replays of inputs found by the coverage-guided target c13_colr
+    ctx.index_stage("colr-raw", Isolation::Threads, 0, |_| RawColr { colr_hex: String::new(), ctl: [0; 8] }, |c: &RawColr, _s| {
+        let d: Vec<u8> = (0..c.colr_hex.len() / 2).filter_map(|i| u8::from_str_radix(c.colr_hex.get(2 * i..2 * i + 2)?, 16).ok()).collect();
+        let d = if c.colr_hex.starts_with("hex:") { (0..(c.colr_hex.len() - 4) / 2).filter_map(|i| u8::from_str_radix(c.colr_hex.get(4 + 2 * i..6 + 2 * i)?, 16).ok()).collect() } else { d };
+        fail_of(strict, guard::catch(|| paint_raw_colr(&d, &c.ctl)), _s)
+    });
+}
+
+#[derive(Clone, Debug, Serialize, Deserialize)]
+pub struct RawColr {
+    pub colr_hex: String,
+    pub ctl: [u8; 8],
+}
+
+/// raw COLR bytes (coverage-guided target / its replays): paint glyphs 0..24 with the balance oracle
+pub fn paint_raw_colr(colr: &[u8], ctl: &[u8; 8]) -> Result<(), (String, String)> {
+    let kit = fontkit::Kit { num_glyphs: 64, upem: 1000, extra: vec![(*b"COLR", colr.to_vec())], ..Default::default() };
+    let bytes = kit.build();
+    let Ok(font) = FontRef::new(&bytes) else { return Ok(()) };
+    let coords: Vec<F2Dot14> = (0..(ctl[0] % 3) as usize).map(|i| F2Dot14::from_bits(i16::from_be_bytes([ctl[1 + i], ctl[2 + i]]))).collect();
+    let script: Vec<u8> = ctl[4..8].iter().take((ctl[3] % 5) as usize).copied().collect();
+    let mut st = PaintStats::default();
+    for gid in 0..24u32 {
+        colrgen::paint_and_check(&font, gid, &coords, &script, false, &mut st)?;
+    }
+    Ok(())
 }
